@@ -514,13 +514,34 @@ pub enum ResultWithDeserializedMetadata {
     SchemaChange(SchemaChange),
 }
 
+/// Maximum nesting depth of a CQL type accepted from the wire.
+///
+/// Types are parsed (and later type-checked, deserialized and dropped) recursively,
+/// so an unbounded depth would let a peer overflow the stack with a small frame.
+/// Real-life types are nested a few levels deep at most.
+pub(crate) const MAX_TYPE_NESTING_DEPTH: usize = 128;
+
 fn deser_type_generic<'frame, 'result, StrT: Into<Cow<'result, str>>>(
     buf: &mut &'frame [u8],
     read_string: fn(&mut &'frame [u8]) -> StdResult<StrT, LowLevelDeserializationError>,
     read_custom_type: fn(&'frame str) -> StdResult<ColumnType<'result>, CustomTypeParseError>,
 ) -> StdResult<ColumnType<'result>, CqlTypeParseError> {
+    deser_type_generic_nested(buf, read_string, read_custom_type, 0)
+}
+
+fn deser_type_generic_nested<'frame, 'result, StrT: Into<Cow<'result, str>>>(
+    buf: &mut &'frame [u8],
+    read_string: fn(&mut &'frame [u8]) -> StdResult<StrT, LowLevelDeserializationError>,
+    read_custom_type: fn(&'frame str) -> StdResult<ColumnType<'result>, CustomTypeParseError>,
+    depth: usize,
+) -> StdResult<ColumnType<'result>, CqlTypeParseError> {
     use ColumnType::*;
     use NativeType::*;
+    if depth > MAX_TYPE_NESTING_DEPTH {
+        return Err(CqlTypeParseError::TypeNestingTooDeep(
+            MAX_TYPE_NESTING_DEPTH,
+        ));
+    }
     let id =
         types::read_short(buf).map_err(|err| CqlTypeParseError::TypeIdParseError(err.into()))?;
     Ok(match id {
@@ -551,25 +572,37 @@ fn deser_type_generic<'frame, 'result, StrT: Into<Cow<'result, str>>>(
         0x0015 => Native(Duration),
         0x0020 => Collection {
             frozen: false,
-            typ: CollectionType::List(Box::new(deser_type_generic(
+            typ: CollectionType::List(Box::new(deser_type_generic_nested(
                 buf,
                 read_string,
                 read_custom_type,
+                depth + 1,
             )?)),
         },
         0x0021 => Collection {
             frozen: false,
             typ: CollectionType::Map(
-                Box::new(deser_type_generic(buf, read_string, read_custom_type)?),
-                Box::new(deser_type_generic(buf, read_string, read_custom_type)?),
+                Box::new(deser_type_generic_nested(
+                    buf,
+                    read_string,
+                    read_custom_type,
+                    depth + 1,
+                )?),
+                Box::new(deser_type_generic_nested(
+                    buf,
+                    read_string,
+                    read_custom_type,
+                    depth + 1,
+                )?),
             ),
         },
         0x0022 => Collection {
             frozen: false,
-            typ: CollectionType::Set(Box::new(deser_type_generic(
+            typ: CollectionType::Set(Box::new(deser_type_generic_nested(
                 buf,
                 read_string,
                 read_custom_type,
+                depth + 1,
             )?)),
         },
         0x0030 => {
@@ -580,13 +613,16 @@ fn deser_type_generic<'frame, 'result, StrT: Into<Cow<'result, str>>>(
                 .map_err(|err| CqlTypeParseError::UdtFieldsCountParseError(err.into()))?
                 .into();
 
+            // Each field takes at least 4 bytes (name length + type id), so the count
+            // announced by the peer cannot be trusted beyond what the buffer can hold.
             let mut field_types: Vec<(Cow<'result, str>, ColumnType)> =
-                Vec::with_capacity(fields_size);
+                Vec::with_capacity(fields_size.min(buf.len() / 4));
 
             for _ in 0..fields_size {
                 let field_name =
                     read_string(buf).map_err(CqlTypeParseError::UdtFieldNameParseError)?;
-                let field_type = deser_type_generic(buf, read_string, read_custom_type)?;
+                let field_type =
+                    deser_type_generic_nested(buf, read_string, read_custom_type, depth + 1)?;
 
                 field_types.push((field_name.into(), field_type));
             }
@@ -604,9 +640,15 @@ fn deser_type_generic<'frame, 'result, StrT: Into<Cow<'result, str>>>(
             let len: usize = types::read_short(buf)
                 .map_err(|err| CqlTypeParseError::TupleLengthParseError(err.into()))?
                 .into();
-            let mut types = Vec::with_capacity(len);
+            // Each element type takes at least 2 bytes (type id).
+            let mut types = Vec::with_capacity(len.min(buf.len() / 2));
             for _ in 0..len {
-                types.push(deser_type_generic(buf, read_string, read_custom_type)?);
+                types.push(deser_type_generic_nested(
+                    buf,
+                    read_string,
+                    read_custom_type,
+                    depth + 1,
+                )?);
             }
             Tuple(types)
         }
@@ -657,7 +699,10 @@ fn deser_col_specs_generic<'frame, 'result>(
     make_col_spec: fn(&'frame str, ColumnType<'result>, TableSpec<'frame>) -> ColumnSpec<'result>,
     deser_type: fn(&mut &'frame [u8]) -> StdResult<ColumnType<'result>, CqlTypeParseError>,
 ) -> StdResult<Vec<ColumnSpec<'result>>, ColumnSpecParseError> {
-    let mut col_specs = Vec::with_capacity(col_count);
+    // The column count comes from the peer as a 32-bit integer. Each column spec takes
+    // at least 4 bytes (name length + type id), so do not reserve for more specs
+    // than the buffer can possibly hold.
+    let mut col_specs = Vec::with_capacity(col_count.min(buf.len() / 4));
     for col_idx in 0..col_count {
         let table_spec = match global_table_spec {
             // If global table spec was provided, we simply clone it to each column spec.
@@ -933,7 +978,9 @@ fn deser_prepared_metadata(
     let pk_count: usize =
         types::read_int_length(buf).map_err(PreparedMetadataParseError::PkCountParseError)?;
 
-    let mut pk_indexes = Vec::with_capacity(pk_count);
+    // Each partition key index takes 2 bytes; do not trust the peer's 32-bit count
+    // beyond what the buffer can hold.
+    let mut pk_indexes = Vec::with_capacity(pk_count.min(buf.len() / 2));
     for i in 0..pk_count {
         pk_indexes.push(PartitionKeyIndex {
             index: types::read_short(buf)
